@@ -1,11 +1,11 @@
 import Driver.Util
 import Driver.Bip
-import Driver.LoopSpec
+import Driver.Loop
 
 open Driver
 
 def components : List (String × (Script → Result)) :=
   [("bip", Driver.Bip.check),
-   ("loop", Driver.LoopSpec.check)]
+   ("loop", Driver.Loop.check)]
 
 def main (args : List String) : IO UInt32 := Driver.mainWith components args
